@@ -279,8 +279,9 @@ func c17ScenarioGated(name string, max int, kinds []string, stopEarly bool, gate
 				bad = append(bad, vScnBad{"harness-thread-blocked-forever", fmt.Sprintf("%v (%s)", b, res.Summary())})
 			}
 			if len(dropped) > 0 && !c17EarlyTimer(res) {
-				// with timers firing early (read deadline, idle reaper) a connection may legitimately end first
-				bad = append(bad, vScnBad{"accepted-call-dropped-without-reply", fmt.Sprintf("clients %v: the server consumed the call and closed the connection without a reply although no timer fired early", dropped)})
+				// the server consumed a call and closed the connection without replying although no timer
+				// fired early: not a clause of C17 (C15 owns it) - shown in the outcome, not judged here
+				w.notes = append(w.notes, fmt.Sprintf("dropped-without-reply=%v", dropped))
 			}
 			if stopErr != nil && !c17EarlyTimer(res) {
 				bad = append(bad, vScnBad{"stop-gives-up-although-no-thread-was-slow", fmt.Sprintf("Stop returned %v in an execution where no timer fired before quiescence: the goroutines it waits for were blocked, not slow", stopErr)})
